@@ -108,6 +108,7 @@ func run(c *core.Ctx) {
 		c.Inconclusive("simulator setup failed: " + err.Error())
 		return
 	}
+	sim.Mon.HeldCheck = true // held block = block the held parts encode (shared with C12S)
 	sim.Run()
 	m := sim.Mon
 	for k, v := range m.Counters {
